@@ -218,8 +218,13 @@ def _feed_driver(drv, pin, pout, result):
     and the run goes on. A timeout is not evidence of anything: such requests are counted and left undecided."""
     import select
 
+    def limit():
+        import resource
+        gib = int(os.environ.get("VERIF_MODEL_MEM_GIB", "3"))
+        resource.setrlimit(resource.RLIMIT_AS, (gib << 30, gib << 30))
+
     def start():
-        return subprocess.Popen([drv], stdin=subprocess.PIPE, stdout=subprocess.PIPE, stderr=subprocess.DEVNULL, bufsize=0)
+        return subprocess.Popen([drv], stdin=subprocess.PIPE, stdout=subprocess.PIPE, stderr=subprocess.DEVNULL, bufsize=0, preexec_fn=limit)
 
     p = start()
     buf = b""
@@ -310,8 +315,10 @@ def run_driver(outdir, timeout=7200):
     crashes = sum(r.get("crashes", 0) for r in results)
     DRIVER_STATS["timeouts"] += sum(r.get("timeouts", 0) for r in results)
     DRIVER_STATS["crashes"] += crashes
-    if crashes and rc == 0:
-        rc, err = 1, "the driver died on %d request(s) (answered model-crash)" % crashes
+    # a request on which the model process dies has exhausted its address-space limit (the denotational models build
+    # every intermediate result list): undecided like a timeout, unless it happens on more than 1 request in 1000
+    if crashes > max(3, nlines // 1000) and rc == 0:
+        rc, err = 1, "the driver died on %d of %d requests (answered model-crash)" % (crashes, nlines)
     ins = [open(pout, "rb") for pout in pouts]
     with open(os.path.join(outdir, "lean.txt"), "wb") as fout:
         for i in range(nlines):
@@ -343,7 +350,7 @@ def diff_replies(outdir, limit=20):
             if not (r and a and b):
                 continue
             a, b = a.rstrip("\n"), b.rstrip("\n")
-            if b == "model-timeout":
+            if b == "model-timeout" or b == "model-crash":
                 continue
             if a != b and len(diffs) < limit:
                 diffs.append({"request": r.rstrip("\n"), "impl": a, "model": b})
@@ -956,6 +963,8 @@ def check(pid, tier, seed):
                     stats["model_diffs"] = stats.get("model_diffs", 0) + len(tie_diffs)
                     if DRIVER_STATS["timeouts"]:
                         stats["dist"]["model-timeouts(undecided)"] = DRIVER_STATS["timeouts"]
+                    if DRIVER_STATS["crashes"]:
+                        stats["dist"]["model-out-of-memory(undecided)"] = DRIVER_STATS["crashes"]
                     if tie_diffs:
                         broken.append({"tie": "correspondence %s (model vs implementation)" % cmd, "detail": tie_diffs[:5]})
 
